@@ -2,7 +2,7 @@
    Only statements here; every proof is one [exact] of a lemma from Proofs/.
    jleaf has exactly the JSON leaf kinds (null, bool, int, float, str); [pure_leaf] excludes NaN. *)
 From Coq Require Import List Arith.
-From PdV Require Import Json JsonProofs ParseTable RoundTrip JsonRoundTrip.
+From PdV Require Import Json JsonProofs ParseTable RoundTrip JsonRoundTrip DestsRoundTrip RoundTripCorollaries.
 Import ListNotations.
 
 (* table_to_json_data: name, destinations, columns in table order each with its own unit, all
@@ -70,3 +70,11 @@ Theorem C08_json_roundtrip :
               = Ok (json_read_back name dests cols fx).
 Proof. exact json_roundtrip. Qed.
 Print Assumptions C08_json_roundtrip.
+
+(* the destinations of the rebuilt table are the destinations given, for non-empty lists of names
+   without whitespace (json_read_back states them as the destinations of the joined cell) *)
+Theorem C08_json_destinations :
+  forall (name : str) (dests : list str) (cols : list (str * str * list cell)) (fx : fixer_st),
+    dests <> [] -> Forall dest_ok dests -> p_dests (json_read_back name dests cols fx) = dests.
+Proof. exact json_read_back_dests. Qed.
+Print Assumptions C08_json_destinations.
